@@ -469,6 +469,9 @@ class Evaluator:
                 nz_left = isinstance(a, NonZero)
                 return int((op in ("Gt", "Ge")) == nz_left)
             raise Unsupported("comparison of an abstract non-zero value with %r" % (other,))
+        if op in ("Eq", "Ne") and isinstance(a, tuple) and isinstance(b, tuple) and len(a) == len(b) \
+                and all(isinstance(q, (int, float)) for q in a + b):
+            return int((a == b) == (op == "Eq"))      # arrays of numbers compare element-wise
         if op.endswith("WithOverflow"):
             return (self.binop(op[: -len("WithOverflow")], a, b), 0)
         op = op.replace("Unchecked", "")
@@ -630,6 +633,8 @@ class Evaluator:
         if short == "core::default::Default::default" and not args and c.get("args") and c["args"][0] in (
                 "u8", "u16", "u32", "u64", "usize", "i8", "i16", "i32", "i64", "isize", "bool"):
             return 0
+        if short == "core::array::from_fn" and len(args) == 1 and c.get("args") and len(c["args"]) >= 2 and str(c["args"][1]).isdigit():
+            return tuple(self._call_closure(args[0], [i]) for i in range(int(c["args"][1])))
         if short in ("core::cmp::PartialEq::eq", "core::cmp::PartialEq::ne"):
             a, b = self.deref_val(args[0]), self.deref_val(args[1])
             r = self.binop("Eq", a, b)
